@@ -105,13 +105,19 @@ RECS = [
     {"n": I(1), "s": S("Ab"), "l": LI([S("a"), S("b")]), "z": NN, "t": B(True), "ip": IP("10.0.0.1"), "p": PA("/a/B"), "w": S("a")},
     {"n": I(0), "s": S(""), "l": LI([]), "z": NN, "t": B(False), "ip": IP("10.0.0.2"), "p": PA("/a"), "w": S("zz")},
     {"n": I(100), "s": S("a"), "l": LI([S("Ab")]), "z": NN, "t": B(True), "ip": NN, "p": NN, "w": S("b")},
+    # a record of ANOTHER descriptor with the same type name that HAS the field `m` the others lack
+    {"n": I(7), "s": S("a"), "l": LI([S("a")]), "z": NN, "t": B(False), "ip": NN, "p": NN, "w": S("a"), "m": S("a")},
 ]
+FIELDS_M = FIELDS + [("string", "m")]
 
 
 def envs():
     """the records as environments for spec/Selector.tla (with the field-type table the typed matchers need)"""
-    meta = {"$types": {"t": "meta", "v": {n: t for t, n in FIELDS}}, "$order": {"t": "meta", "v": [n for t, n in FIELDS]}}
-    return [dict(r, **meta) for r in RECS]
+    out = []
+    for r in RECS:
+        fl = FIELDS_M if "m" in r else FIELDS
+        out.append(dict(r, **{"$types": {"t": "meta", "v": {n: t for t, n in fl}}, "$order": {"t": "meta", "v": [n for t, n in fl]}}))
+    return out
 MISSING = ["m", "m2"]   # field names no record has
 
 
@@ -141,7 +147,8 @@ def real_records():
     from flow.record import RecordDescriptor
 
     D = RecordDescriptor("t/sel", FIELDS)
-    return [D(**{k: val(v) for k, v in r.items()}, _generated=None) for r in RECS], D
+    DM = RecordDescriptor("t/sel", FIELDS_M)
+    return [(DM if "m" in r else D)(**{k: val(v) for k, v in r.items()}, _generated=None) for r in RECS], D
 
 
 def engine_eval(cls, source, recs, cache=None):
@@ -182,8 +189,9 @@ def c08_exprs():
     others = {
         "int": C(I(1)), "str": C(S("a")), "none": C(NN), "bool": C(B(True)), "field_int": F("n"), "field_str": F("s"), "field_list": F("l"),
         "field_none": F("z"), "field_bool": F("t"), "list": LST(C(I(1)), C(S("a"))), "tuple": TUP(C(I(1)), C(S("a"))), "missing": F("m2"), "emptystr": C(S("")),
+        "list_with_missing": LST(F("m2"), C(I(1))), "tuple_with_missing": TUP(F("m2"), F("n")),
     }
-    containers = {"str", "field_str", "field_list", "list", "tuple", "missing", "emptystr"}
+    containers = {"str", "field_str", "field_list", "list", "tuple", "missing", "emptystr", "list_with_missing", "tuple_with_missing"}
     out = []
     for op in CMPOPS:
         for pos in ("left", "right"):
